@@ -203,6 +203,13 @@ def gen_kernels():
         txt = ("(* GENERATED: harness/pytrans_atomline.py could not translate the current source: %s *)\n"
                "Definition translation_failed : True := untranslatable_source.\n" % str(ex).replace("*)", "* )"))
     _write_gen("AtomLineGen.v", txt)
+    import pytrans_gen
+    try:
+        txt = pytrans_gen.generate(REPO)
+    except pytrans_gen.Unsupported as ex:
+        txt = ("(* GENERATED: harness/pytrans_gen.py could not translate the current source: %s *)\n"
+               "Definition translation_failed : True := untranslatable_source.\n" % str(ex).replace("*)", "* )"))
+    _write_gen("SysGen.v", txt)
 
 
 def _write_gen(fname, txt):
